@@ -765,10 +765,18 @@ func runC03(c *Ctx) {
 			if re2, err := regexp.Compile(K["RegexStartURL"] + "example\\.org"); err == nil && bad == "" {
 				// ... and only inside the host name: a query, a path, userinfo or a fragment in front of
 				// the text is not a chain of sub-domain labels
-				for u, want := range map[string]bool{"http://example.org": true, "https://a.b.example.org": true, "http://notexample.org": false,
-					"https://evil.test?next=a.example.org": false, "https://evil.test/a.example.org": false, "https://user@a.example.org": false,
-					"https://evil.test#x.example.org": false, "https://evil.test:80.example.org": false, "http://a b.example.org": false} {
-					if re2.MatchString(u) != want {
+				type row struct {
+					u    string
+					want bool
+				}
+				for _, r := range []row{{"http://example.org", true}, {"https://a.b.example.org", true}, {"http://notexample.org", false},
+					{"https://evil.test?next=a.example.org", false}, {"https://evil.test/a.example.org", false}, {"https://user@a.example.org", false},
+					{"https://evil.test#x.example.org", false}, {"https://evil.test:80.example.org", false}, {"http://a b.example.org", false},
+					// every character a DNS label can have: letters, digits, hyphen, underscore (_dmarc, _sip._tcp)
+					{"http://_dmarc.example.org", true}, {"wss://_sip._tcp.example.org", true}, {"https://a-b.example.org", true},
+					{"http://x1.y2.example.org", true}, {"ws://a_b-c9.d.example.org", true}} {
+					u, want := r.u, r.want
+					if bad == "" && re2.MatchString(u) != want {
 						bad = fmt.Sprintf("'||example.org' %s %q", map[bool]string{true: "does not match", false: "matches"}[want], u)
 					}
 				}
